@@ -99,7 +99,9 @@ def run_step(rng, kind, data, action="run"):
                                   "chunk": rng.choice([0, 0, 1, 1, 2, 3, 7, 64, 255]),
                                   "seg": rng.choice([0, 0, 1, 2, 3, 4, 5]),
                                   "mis": rng.randrange(16), "grant": rng.choice([1, 2, 3, 8, 64]),
-                                  "slack": rng.choice([0, 0, 1, 2, 5]), "maxres": 64}}]
+                                  "slack": rng.choice([0, 0, 1, 2, 5]), "maxres": 64,
+                                  # qrun: size the decode ring is kept at while the data fits (0: grows with each chunk)
+                                  "ring": rng.choice([0, 24, 48, 100, 300])}}]
 
 
 def library_frames(ck, exe, nmsg):
